@@ -881,7 +881,7 @@ def battery(tier):
     n_max = 4
     for n in range(2, n_max + 1):
         for ti, t in enumerate(trees(n)):
-            for naming in ("identity", "adversarial", "plain"):
+            for naming in ("identity", "adversarial", "caseonly"):
                 m = NAMINGS[naming]
                 ns0 = nodes(t)
                 lv = [x for x in ns0 if not any(y.startswith(x + ".") for y in ns0)]
